@@ -72,6 +72,19 @@ CHECKS = {
          "fetches (covered under C10).",
     technique="TLA+ spec + TLC; TLC-generated fault scripts replayed into the real proxy/daemon; TLC trace validation (monitor)",
     ref="6/C03"),
+ "C08": dict(
+    category="model_checking",
+    text="Daemon.tla (connection state machine: accepted -> handshake -> ready -> closed, with the client writing arbitrary item classes, "
+         "possibly pipelined) model-checked for NoExecBeforeReady and the cleanup/accounting invariants; Gen_Hs.tla enumerates first-message "
+         "class x validator behaviour x pipelined requests and states per scenario whether the handshake must be accepted and whether a "
+         "connect-failure with the reason is required; raw clients write the whole pipeline into a real daemon (both server types, all four "
+         "serializers, varying sequence numbers) before the server runs, and more afterwards; every execution of a registered object's method "
+         "(including the daemon object's) is logged with its connection; TLC validates each run against Trace_Daemon.tla (clauses C08.*).",
+    note="Trusted: the concretisation of first-message classes into bytes, the execution log written by the generated target objects, the "
+         "in-memory transport, TLC. Pre-connected socket pairs are exempt by the statement and not generated; validators raising "
+         "KeyboardInterrupt/SystemExit are outside the statement.",
+    technique="TLA+ spec + TLC; TLC-generated handshake scenarios replayed into the real daemon; TLC trace validation (monitor)",
+    ref="6/C08"),
 }
 NOT_YET = {}
 ALL = ["C%02d" % i for i in range(1, 21)]
